@@ -12,28 +12,6 @@ import Genshi.Model.OutputFlatPipeline
 namespace Genshi.Output
 open Genshi
 
-/-- an event in front of the flattener, in C02's vocabulary -/
-def toX : QEv → Xml.XEv
-  | .start t a => .ev (.start t a)
-  | .empty t a => .empty t a
-  | .end_ t => .ev (.end_ t)
-  | .text s f => .ev (.text s f)
-  | .comment s => .ev (.comment s)
-  | .pi t d => .ev (.pi t d)
-  | .doctype n p s => .ev (.doctype n p s)
-  | .xmlDecl v e s => .ev (.xmlDecl v e s)
-  | .startNs p u => .ev (.startNs p u)
-  | .endNs p => .ev (.endNs p)
-  | .startCdata => .ev .startCdata
-  | .endCdata => .ev .endCdata
-
-/-- a flattened event of C02's vocabulary as the main loop sees it -/
-def ofXF : Xml.FEv → FEv
-  | .start n a => .start n a
-  | .empty n a => .empty n a
-  | .end_ n => .end_ n
-  | .other e => passEv e
-
 def tagOk : QEv → Bool
   | .start t _ => t.ns != Xml.noneUri
   | .empty t _ => t.ns != Xml.noneUri
